@@ -131,5 +131,4 @@ theorem readLine_render (l : Line) (ho : NameOK l.out)
     have h1 : ¬ "shift".toList = "add".toList := by decide
     simp [readLine, h1, readNat_natStr]
 
-#print axioms readLine_render
 end P.Listing
